@@ -50,6 +50,9 @@ func (p *Publish) Decode(src []byte) (int, error) {
 		return total, err
 	}
 
+	// limit buffer to the packet (ignore bytes of following packets)
+	src = src[:hl+rl]
+
 	// read flags
 	p.Dup = ((flags >> 3) & 0x1) == 1
 	p.Message.Retain = (flags & 0x1) == 1
